@@ -108,6 +108,133 @@ var c13IdxEdges = [][4]float64{
 // edge query targets
 var c13TargetNames = []string{"tp0", "tp1", "tp2", "te0", "ti0"}
 
+// index targets: initial contents of the target's own ShapeIndex (names of c13TShape)
+var c13TIMenu = map[string][]string{
+	// small loops at clearly different distances from everything indexed, so that an approximate answer (a
+	// target that still carries the maxError of an earlier threshold call, defect D49) differs from the exact one
+	"ti0": {"Z0", "Z1", "Z2", "Z3", "Z4", "Z5", "Z6", "Z7", "Z8", "Z9"},
+	// one loop far from everything: fewer edges than the brute-force threshold of the target's own query
+	"ti1": {"Y0"},
+	// an empty target index
+	"ti2": {},
+}
+
+// shapes that live in TARGET indexes (initial contents and tadd)
+var c13TShapeNames = []string{"T0", "T1", "T2", "T3", "TP", "TE"}
+
+// c13TShape returns a NEW object for a target-shape name (nil if unknown).
+func c13TShape(name string) s2.Shape {
+	small := func(lat, lng float64, n int) s2.Shape {
+		return s2.RegularLoop(c13LL(lat, lng), s1.Angle(0.3)*s1.Degree, n)
+	}
+	if len(name) == 2 && name[0] == 'Z' && name[1] >= '0' && name[1] <= '9' {
+		k := int(name[1] - '0')
+		return small(float64(24+3*k), float64(31+(k*17)%23), 12)
+	}
+	switch name {
+	case "Y0":
+		return small(-50, 150, 12)
+	case "T0":
+		return small(10, 26, 6) // 0.6 degrees outside L0
+	case "T1":
+		return small(10.2, 20.3, 6) // inside L0 (and L1)
+	case "T2":
+		return small(-30, -40.5, 6) // inside L2 and G
+	case "T3":
+		return small(10, 26, 12) // as T0; with this one the stale covering of D51 shows on the current tree
+	case "TP":
+		return &s2.Polyline{c13LL(11, 10), c13LL(11, 12), c13LL(11, 14)} // one degree north of P0
+	case "TE":
+		return &s2.Polyline{}
+	}
+	return nil
+}
+
+func c13TShapeTok(name string) string {
+	sh := c13TShape(name)
+	if sh == nil {
+		c13Bad("bad-tshape-%s", name)
+	}
+	t := 0
+	if s2.VerifShapeTracked(sh) {
+		t = 1
+	}
+	return fmt.Sprintf("%d.%d", sh.NumEdges(), t)
+}
+
+func c13TaddOp(name string) string {
+	f := strings.Split(c13TShapeTok(name), ".")
+	return "tadd:" + name + ":" + f[0] + ":" + f[1]
+}
+
+func c13TargetKind(name string) string {
+	switch {
+	case strings.HasPrefix(name, "tp"):
+		return "point"
+	case strings.HasPrefix(name, "te"):
+		return "edge"
+	case strings.HasPrefix(name, "ti"):
+		return "index"
+	}
+	return ""
+}
+
+// c13NewTgtOp is the canonical token that creates the target object `name`.
+func c13NewTgtOp(name string) string {
+	kind := c13TargetKind(name)
+	shapes := "-"
+	if l, ok := c13TIMenu[name]; ok && len(l) > 0 {
+		var toks []string
+		for _, n := range l {
+			toks = append(toks, c13TShapeTok(n))
+		}
+		shapes = strings.Join(toks, "/")
+	}
+	return "newtgt:" + name + ":" + kind + ":" + shapes
+}
+
+// c13Tgt is one target OBJECT of a history together with what the caller did to it.
+type c13Tgt struct {
+	name   string
+	obj    s2.VerifDistanceTarget
+	index  *s2.ShapeIndex // index targets: the target's own index
+	shapes []string       // index targets: names of the shapes added so far
+	set    bool           // tset was called
+	ii, bf bool
+}
+
+// c13MakeTgt builds a NEW target object: stateless ones by name, index targets over a new (unbuilt) index holding shapes.
+func c13MakeTgt(name string, shapes []string) *c13Tgt {
+	t := &c13Tgt{name: name}
+	if c13TargetKind(name) == "index" {
+		t.index = s2.NewShapeIndex()
+		for _, n := range shapes {
+			sh := c13TShape(n)
+			if sh == nil {
+				c13Bad("bad-tshape-%s", n)
+			}
+			t.index.Add(sh)
+		}
+		t.shapes = append([]string(nil), shapes...)
+		t.obj = s2.NewMinDistanceToShapeIndexTarget(t.index)
+		return t
+	}
+	t.obj = c13Target(name)
+	if t.obj == nil {
+		return nil
+	}
+	return t
+}
+
+// fresh rebuilds target index + target from the current shape list and the caller's settings.
+func (t *c13Tgt) fresh() s2.VerifDistanceTarget {
+	n := c13MakeTgt(t.name, t.shapes)
+	if t.set {
+		s2.VerifTargetSetInner(n.obj, t.ii, t.bf)
+	}
+	return n.obj
+}
+
 func c13Target(name string) s2.VerifDistanceTarget {
 	switch name {
 	case "tp0":
@@ -120,15 +247,10 @@ func c13Target(name string) s2.VerifDistanceTarget {
 		// crosses the boundary of L0 only (stays clear of P0 and L1, so that the zero
 		// distance is not tied between two shapes)
 		return s2.NewMinDistanceToEdgeTarget(s2.Edge{V0: c13LL(14, 12), V1: c13LL(11, 17.5)})
-	case "ti0":
-		// another ShapeIndex as target: small loops at clearly different distances from everything indexed, so
-		// that an approximate answer (a target that still carries the maxError of an earlier threshold call,
-		// defect D49) differs from the exact one.  The target object is REUSED within a history (c13State.target).
-		ti := s2.NewShapeIndex()
-		for k := 0; k < 10; k++ {
-			ti.Add(s2.RegularLoop(c13LL(float64(24+3*k), float64(31+(k*17)%23)), s1.Angle(0.3)*s1.Degree, 12))
-		}
-		return s2.NewMinDistanceToShapeIndexTarget(ti)
+	}
+	if l, ok := c13TIMenu[name]; ok {
+		// another ShapeIndex as target.  The target object is REUSED within a history (c13State.targets).
+		return c13MakeTgt(name, l).obj
 	}
 	return nil
 }
@@ -278,8 +400,14 @@ func c13AddOp(name string) string {
 	return s
 }
 
+var c13ThrCache = map[string]int{}
+
 func c13CallOp(kind, target string, l int) string {
-	thr := s2.VerifMaxBruteForceIndexSize(c13Target(target))
+	thr, ok := c13ThrCache[target]
+	if !ok {
+		thr = s2.VerifMaxBruteForceIndexSize(c13Target(target))
+		c13ThrCache[target] = thr
+	}
 	switch kind {
 	case "fes", "fe", "dist":
 		return fmt.Sprintf("call:%s:%s:%d", kind, target, thr)
@@ -291,7 +419,8 @@ func c13CallOp(kind, target string, l int) string {
 // Executing histories (child side)
 
 type c13State struct {
-	targets map[string]s2.VerifDistanceTarget // EdgeQuery targets are reused within a history
+	targets map[string]*c13Tgt // EdgeQuery targets are objects that live for the whole history (until the next newtgt of the name)
+	curT    *c13Tgt            // the target object of the last newtgt (tadd / tset act on it)
 	loop  *s2.Loop
 	poly  *s2.Polygon
 	index *s2.ShapeIndex
@@ -309,7 +438,7 @@ func c13NewState(a []string) *c13State {
 	if err1 != nil || err2 != nil || lv < 3 || pv < 3 {
 		c13Bad("bad-params")
 	}
-	st := &c13State{loop: c13NewLoop(lv), poly: c13NewPolygon(a[1], pv), index: s2.NewShapeIndex()}
+	st := &c13State{loop: c13NewLoop(lv), poly: c13NewPolygon(a[1], pv), index: s2.NewShapeIndex(), targets: map[string]*c13Tgt{}}
 	if st.poly == nil {
 		c13Bad("bad-polykind-%s", a[1])
 	}
@@ -379,17 +508,21 @@ func c13ResStr(r s2.EdgeQueryResult) string {
 	return fmt.Sprintf("%d/%d/%016x", r.ShapeID(), r.EdgeID(), math.Float64bits(float64(r.Distance())))
 }
 
-func c13DoCall(e *s2.EdgeQuery, f []string, cache map[string]s2.VerifDistanceTarget) string {
+// c13DoCall: fresh = false uses the target object of this history (created at first use unless a newtgt did);
+// fresh = true rebuilds target index + target from the object's current shape list and settings.
+func c13DoCall(e *s2.EdgeQuery, f []string, cache map[string]*c13Tgt, fresh bool) string {
 	kind, tname := f[1], f[2]
-	t := cache[tname] // long-lived side: the target object of this history; nil map on the fresh side
-	if t == nil {
-		t = c13Target(tname)
-		if cache != nil {
-			cache[tname] = t
+	tg := cache[tname]
+	if tg == nil {
+		tg = c13MakeTgt(tname, c13TIMenu[tname])
+		if tg == nil {
+			c13Bad("bad-target-%s", tname)
 		}
+		cache[tname] = tg
 	}
-	if t == nil {
-		c13Bad("bad-target-%s", tname)
+	t := tg.obj
+	if fresh {
+		t = tg.fresh()
 	}
 	if thr, err := strconv.Atoi(f[3]); err != nil || thr != s2.VerifMaxBruteForceIndexSize(t) {
 		c13Bad("bad-thr-%s", f[3])
@@ -514,11 +647,48 @@ func (st *c13State) exec(op string) (answer string, kind int, optsok bool) {
 		if len(f) < 4 {
 			c13Bad("call-arity")
 		}
-		if st.targets == nil {
-			st.targets = map[string]s2.VerifDistanceTarget{}
-		}
-		a := c13DoCall(st.eq, f, st.targets)
+		a := c13DoCall(st.eq, f, st.targets, false)
 		return a, 2, st.user.holds(st.eq)
+	case "newtgt":
+		if len(f) != 4 {
+			c13Bad("newtgt-arity")
+		}
+		if c13TargetKind(f[1]) == "" || (c13TargetKind(f[1]) == "index" && c13TIMenu[f[1]] == nil) {
+			c13Bad("bad-target-%s", f[1])
+		}
+		if c13NewTgtOp(f[1]) != op {
+			c13Bad("newtgt-mismatch-want-%s", c13NewTgtOp(f[1]))
+		}
+		tg := c13MakeTgt(f[1], c13TIMenu[f[1]])
+		if tg == nil {
+			c13Bad("bad-target-%s", f[1])
+		}
+		st.targets[f[1]] = tg
+		st.curT = tg
+		return "", 0, false
+	case "tadd":
+		if len(f) != 4 {
+			c13Bad("tadd-arity")
+		}
+		if st.curT == nil || st.curT.index == nil {
+			c13Bad("tadd-without-index-target")
+		}
+		if c13TaddOp(f[1]) != op {
+			c13Bad("tadd-mismatch-want-%s", c13TaddOp(f[1]))
+		}
+		st.curT.index.Add(c13TShape(f[1]))
+		st.curT.shapes = append(st.curT.shapes, f[1])
+		return "", 0, false
+	case "tset":
+		if len(f) != 3 {
+			c13Bad("tset-arity")
+		}
+		if st.curT == nil || st.curT.index == nil {
+			c13Bad("tset-without-index-target")
+		}
+		st.curT.set, st.curT.ii, st.curT.bf = true, c13Bool(f[1]), c13Bool(f[2])
+		s2.VerifTargetSetInner(st.curT.obj, st.curT.ii, st.curT.bf)
+		return "", 0, false
 	case "eqreset":
 		if st.eq == nil {
 			c13Bad("eqreset-without-query")
@@ -551,7 +721,7 @@ func (st *c13State) ref(op string) string {
 		return c13IndexAnswer(index, objs)
 	case "call":
 		index, _ := c13FreshIndex(st.names)
-		return c13DoCall(s2.NewClosestEdgeQuery(index, st.user.build()), f, nil)
+		return c13DoCall(s2.NewClosestEdgeQuery(index, st.user.build()), f, st.targets, true)
 	case "lcontains":
 		return c13LoopContains(s2.LoopFromPoints(append([]s2.Point(nil), st.loop.Vertices()...)))
 	case "lcell":
@@ -957,8 +1127,69 @@ func c13Collect(p *c13Proc, nops int) []string {
 // Generator
 
 type c13Gen struct {
-	g   *G
-	idx int
+	g      *G
+	idx    int
+	filter func(ops []string) bool // dfs: histories to skip (nil = none)
+}
+
+// c13TgtModel predicts what matters about the CURRENT target object for the generator.
+//
+// On the current tree the inner query of an index target caches a covering of the TARGET's index the first time
+// it runs its optimized path (target index with more than 30 edges) and nothing ever resets it: a shape added to
+// the target's index afterwards is not seen through that target object (finding D51 of work package c13targets;
+// in C++ terms the inner query would need a ReInit that the target does not offer).  Until that is decided the
+// generator keeps tadd away from target objects whose inner query may hold a covering; C13_D51=1 lifts this.
+type c13TgtModel struct {
+	name  string
+	index bool
+	edges int  // edges in the target's index
+	cov   bool // the inner query may have cached a covering
+	bf    bool // inner useBruteForce
+}
+
+var c13AllowD51 = os.Getenv("C13_D51") != ""
+
+func (t *c13TgtModel) newtgt(name string) {
+	*t = c13TgtModel{name: name, index: c13TargetKind(name) == "index"}
+	for _, n := range c13TIMenu[name] {
+		t.edges += c13TEdges(n)
+	}
+}
+
+func (t *c13TgtModel) called(name string) {
+	if t.index && name == t.name && t.edges > 30 && !t.bf {
+		t.cov = true
+	}
+}
+
+func (t *c13TgtModel) canTadd() bool { return t.index && (!t.cov || c13AllowD51) }
+
+func c13TEdges(name string) int {
+	var e, tr int
+	fmt.Sscanf(c13TShapeTok(name), "%d.%d", &e, &tr)
+	return e
+}
+
+// c13TgtSafe reports whether a history keeps tadd away from target objects whose inner query may hold a covering.
+func c13TgtSafe(ops []string) bool {
+	var t c13TgtModel
+	for _, op := range ops {
+		f := strings.Split(op, ":")
+		switch f[0] {
+		case "newtgt":
+			t.newtgt(f[1])
+		case "call":
+			t.called(f[2])
+		case "tset":
+			t.bf = f[2] == "1"
+		case "tadd":
+			if !t.canTadd() {
+				return false
+			}
+			t.edges += c13TEdges(f[1])
+		}
+	}
+	return true
 }
 
 // run executes and prints one history; it reports whether the history survived all its ops.
@@ -1014,6 +1245,9 @@ func (c *c13Gen) dfs(lv int, pk string, pv int, prefix []string, alpha []string,
 	}
 	for _, s := range alpha {
 		ops := append(append([]string(nil), prefix...), s)
+		if c.filter != nil && !c.filter(ops) {
+			continue
+		}
 		// (a history skipped because it belongs to another shard counts as alive: its fate is
 		// unknown here; extensions of a dead one are cut back to the dead prefix when run)
 		if c.runHashed(lv, pk, pv, ops) {
@@ -1057,6 +1291,21 @@ func genC13(g *G) {
 	// edge: negative distances, and the second identical call answers differently.
 	c.run(8, "normal", 8, []string{L0, c13NewEQ(1, "inf", "v1", 0, 0), c13CallOp("dist", "te0", 0), c13CallOp("dist", "te0", 0)})
 
+	// target objects (work package c13targets): the D49 history with an explicit target object; a target whose index
+	// grows between two calls (a cached capBound / covering / edge count of the target would show here); the
+	// same with an option limit instead of a threshold call; an empty target index that is filled later.
+	ti0, ti1, ti2 := c13NewTgtOp("ti0"), c13NewTgtOp("ti1"), c13NewTgtOp("ti2")
+	T0, T1, TP := c13TaddOp("T0"), c13TaddOp("T1"), c13TaddOp("TP")
+	c.run(8, "normal", 8, []string{L0, P0, "build", c13NewEQ(math.MaxInt32, "inf", "v0", 1, 1), ti0, c13CallOp("less", "ti0", 40), c13CallOp("fes", "ti0", 0)})
+	c.run(8, "normal", 8, []string{L0, P0, "build", def, ti1, c13CallOp("less", "ti1", 3), T0, c13CallOp("less", "ti1", 3), c13CallOp("dist", "ti1", 0)})
+	c.run(8, "normal", 8, []string{L0, P0, "build", c13NewEQ(math.MaxInt32, "v2", "v0", 1, 0), ti1, c13CallOp("fes", "ti1", 0), T0, c13CallOp("fes", "ti1", 0)})
+	c.run(8, "normal", 8, []string{L0, P0, "build", def, ti2, c13CallOp("dist", "ti2", 0), TP, c13CallOp("dist", "ti2", 0), T1, c13CallOp("fes", "ti2", 0)})
+	c.run(8, "normal", 8, []string{L0, def, ti0, T0, c13CallOp("dist", "ti0", 0), "tset:0:1", c13CallOp("dist", "ti0", 0)})
+	if c13AllowD51 {
+		// D51: the inner query of the target object keeps the covering of the target's index as it was at the first call
+		c.run(8, "normal", 8, []string{L0, def, ti0, c13CallOp("dist", "ti0", 0), c13TaddOp("T3"), c13CallOp("dist", "ti0", 0)})
+	}
+
 	// Part 1: systematic enumeration.
 	depthIdx := 4
 	if g.thorough {
@@ -1087,6 +1336,16 @@ func genC13(g *G) {
 	} {
 		c.dfs(8, "normal", 8, []string{L0, P0, "build", u}, eqAlpha, 3)
 	}
+
+	// target objects: all sequences of calls with / additions to / re-creations of ONE target object
+	c.filter = c13TgtSafe
+	for _, u := range []string{def, c13NewEQ(math.MaxInt32, "v2", "v0", 1, 0), c13NewEQ(1, "inf", "v0", 0, 0)} {
+		c.dfs(8, "normal", 8, []string{L0, P0, "build", u, ti1},
+			[]string{c13CallOp("less", "ti1", 3), c13CallOp("dist", "ti1", 0), c13CallOp("fes", "ti1", 0), T0, T1, TP, ti1}, 4)
+	}
+	c.dfs(8, "normal", 8, []string{L0, P0, def},
+		[]string{ti0, ti2, T0, c13TaddOp("TE"), c13CallOp("less", "ti0", 40), c13CallOp("dist", "ti0", 0), c13CallOp("consle", "ti2", 3), c13CallOp("fes", "ti2", 0)}, 4)
+	c.filter = nil
 
 	// Part 2: random histories.
 	r := g.rng
@@ -1121,6 +1380,8 @@ func genC13(g *G) {
 // maxResults is 1); (2) maxError > 0 together with a multi-shape brute-force search
 // (any edge within maxError of the best may be returned).
 type c13Model struct {
+	tgt     c13TgtModel // the current target object ("" = none)
+	meZero  bool        // the current query object has maxError 0
 	hasEQ   bool
 	n       int // shapes since last reset
 	pendPos int // model of pendingAdditionsPos
@@ -1159,6 +1420,10 @@ func (m *c13Model) pick(r *RNG, risky bool) string {
 		{3, "inv"}, {7, "lcontains"}, {7, "lcell"}, {3, "pinv"}, {7, "pcontains"}}
 	if m.hasEQ {
 		l = append(l, wop{22, "call"}, wop{3, "eqreset"})
+	}
+	l = append(l, wop{5, "newtgt"})
+	if m.tgt.canTadd() {
+		l = append(l, wop{9, "tadd"}, wop{2, "tset"})
 	}
 	tot := 0
 	for _, x := range l {
@@ -1221,13 +1486,36 @@ func (m *c13Model) pick(r *RNG, risky bool) string {
 		if withEdges > 1 && (brute == 1 || total <= 31) {
 			me = "v0" // multi-shape brute-force search: keep the answer well defined
 		}
+		m.meZero = me == "v0"
 		return c13NewEQ(mr, lim, me, incl, brute)
 	case "call":
 		m.built()
 		kind := []string{"fes", "fes", "fe", "dist", "dist", "less", "greater", "consle", "consge"}[r.Intn(9)]
 		t := c13TargetNames[r.Intn(len(c13TargetNames))]
+		if m.tgt.name != "" && r.Intn(2) == 0 {
+			t = m.tgt.name // the current target object
+		}
+		if c13TargetKind(t) == "index" && (t != m.tgt.name || !m.meZero) {
+			// index targets only as explicit objects, and only with maxError 0: an index target forwards maxError to
+			// its own query, whose path (brute force / optimized) legitimately depends on when it first counted the
+			// target's edges, and with maxError > 0 any edge within maxError may be returned
+			t = "tp0"
+		}
 		lim := []int{0, 1, 3, 10, 30, 100}[r.Intn(6)]
+		m.tgt.called(t)
 		return c13CallOp(kind, t, lim)
+	case "newtgt":
+		name := []string{"ti0", "ti1", "ti1", "ti2", "ti2", "tp0", "te0"}[r.Intn(7)]
+		m.tgt.newtgt(name)
+		return c13NewTgtOp(name)
+	case "tadd":
+		name := c13TShapeNames[r.Intn(len(c13TShapeNames))]
+		m.tgt.edges += c13TEdges(name)
+		return c13TaddOp(name)
+	case "tset":
+		ii, bf := r.Intn(2), r.Intn(2)
+		m.tgt.bf = bf == 1
+		return fmt.Sprintf("tset:%d:%d", ii, bf)
 	}
 	return op
 }
